@@ -64,14 +64,14 @@ Record InvA (s : st) : Prop := {
   pd_ok : pctor s <= 1 /\ pdtor s = freed s * pctor s;
   (* the self reference exists exactly while charge is between `_ptr = ptr` and its outcome, or the tracer is linked *)
   tr_ok : match cpcf s with
-          | CClaim | CDtor | CSet => selfref s = false /\ tcount s = 0
+          | CClaim | CDtor | CSet | CGate1 | CGate2 => selfref s = false /\ tcount s = 0
           | CSub _ _ => selfref s = true /\ tcount s = 0
           | CClr => selfref s = true /\ tcount s = 0 /\ is_ready s = true
           | _ => tcount s = b2n (selfref s) /\ (is_ready s = true \/ selfref s = true)
           end;
   (* the resolver's pc and the slot *)
   rs_ok : match rpcf s with
-          | RXWait | RClaim | RResolve => is_ready s = false /\ walk s = [] /\ acc s = []
+          | RXWait | RClaim | RResolve | RG1 | RG2 | RG3 => is_ready s = false /\ walk s = [] /\ acc s = []
           | RWalk | RClr => is_ready s = true
           | RDone _ => is_ready s = true /\ walk s = [] /\ acc s = []
           end;
@@ -160,7 +160,7 @@ Qed.
 Lemma alive_creator s : InvA s -> cpcf s <> CDone -> freed s = 0 /\ 1 <= rc s.
 Proof.
   intros I H. apply alive_of_handles; [exact I|]. unfold nh.
-  destruct (cpcf s) as [| | | | | |[|k]|]; try congruence; destruct (mode s); cbn; lia.
+  destruct (cpcf s) as [| | | | | |[|k]| | |]; try congruence; destruct (mode s); cbn; lia.
 Qed.
 
 Lemma alive_user s j u : InvA s -> nth_error (users s) j = Some u -> 1 <= upc_handles (upcf u) ->
